@@ -118,6 +118,11 @@ class CascadeChecker:
                 except (ValidationFailure, InterestTimeout, InterestNack):
                     self.logger.debug('Public key not valid.')
                     return False
+                except (ValueError, TypeError):
+                    # The key locator (chosen by whoever sent the packet) is not a name an Interest can carry:
+                    # no certificate can be retrieved under it
+                    self.logger.debug('Public key cannot be requested.')
+                    return False
                 self.logger.debug('Public key fetched.')
                 if key_bits:
                     self.storage.save(cert_name, key_bits)
